@@ -199,6 +199,17 @@ def restyle(n, flow, sstyle, memo):
     return c
 
 
+def unshare(n, depth=0):
+    """The same document with every alias replaced by a copy of the anchored node (JSON has no aliases)."""
+    if depth > 40:
+        raise ValueError('cyclic')
+    if isinstance(n, yaml.ScalarNode):
+        return yaml.ScalarNode(n.tag, n.value)
+    if isinstance(n, yaml.SequenceNode):
+        return yaml.SequenceNode(n.tag, [unshare(x, depth + 1) for x in n.value])
+    return yaml.MappingNode(n.tag, [(unshare(k, depth + 1), unshare(v, depth + 1)) for k, v in n.value])
+
+
 def reserialise(node, how):
     if how == 'canonical':
         return yaml.serialize(node, Dumper=yaml.SafeDumper, allow_unicode=True, canonical=True)
@@ -247,6 +258,19 @@ def tie(ctx, model_ok=True):
                 r = verdict('style-' + how, got, base, f're-serialised in {how} style ({t2!r}): {show(v.outcome)}')
                 if r:
                     return r
+            # 1b. JSON style proper: no anchors -- every alias written out as a copy
+            if not encode.is_tree(graph):
+                try:
+                    tree = unshare(graph)
+                    t2 = reserialise(tree, 'json-like')
+                    ok = same_graph(loadcase.compose_raw_text(t2), tree)
+                except Exception:      # noqa
+                    ok = False
+                if ok:
+                    got, v = rerun(specs, c.tyspec, t2)
+                    r = verdict('style-json-unaliased', got, base, f're-serialised in JSON style, aliases written out ({t2!r}): {show(v.outcome)}')
+                    if r:
+                        return r
             # 2. class-mapping keys reordered
             g2 = encode.copy_tree(graph) if encode.is_tree(graph) else None
             if g2 is not None and shuffle_class_keys(rnd, g2, specs, c.tyspec) > 0:
